@@ -280,7 +280,7 @@ def run(ctx):
         "evaluations": len(obs), "distinct_nontrivial": len(distinct),
         "rule": "real uacp.Conn.Receive over loopback TCP (via NewConn / Listener.Accept after HEL-ACK / Dialer.Dial after HEL-ACK), "
                 "writer emits 0-6 well-sized frames (sizes biased to 8, 9, rbuf-1, rbuf; types incl. ERR with good and bad bodies) "
-                "then nothing / a header with bad declared size (0..7, rbuf+1, .., 2^32-1) + garbage / a cut frame, in a chosen segmentation "
+                "then nothing / a header with bad declared size (0..7, rbuf+1, .., 2^32-1) + garbage / a cut frame, in a chosen segmentation; a third of the listener cases establish the connection under test first and then let 1-2 further clients with other (asymmetric) buffer sizes connect to the same listener (also Listen(.., nil) = DefaultServerACK) before any frame is sent: its limits must not change; "
                 "(coalesced, per frame, byte-at-a-time, random, header-splitting, shifted), optionally pausing between writes; "
                 "distinct = distinct (rbuf, byte stream, segmentation) with a non-empty stream",
         "samples": [short(o) for o in (obs[:2] + obs[-2:])],
@@ -293,6 +293,9 @@ def run(ctx):
         "largest_frame": max(sizes or [0]),
         "rbuf_values": len({o["rbuf"] for o in obs}),
         "asymmetric_configurations": sum(1 for o in obs if o.get("peer_send") and o["peer_send"] != o["rbuf"] and o["peer_send"] != 65535),
+        "dialer_with_smaller_own_send_buffer": sum(1 for o in obs if o.get("own_send") and o["own_send"] < o["rbuf"]),
+        "multi_connection_listener_cases": sum(1 for o in obs if o.get("later_hellos")),
+        "listener_with_default_server_ack": sum(1 for o in obs if o.get("nil_ack")),
         "negotiated_below_configured": sum(1 for o in obs if negotiated(o) != o["rbuf"]),
         "out_of_domain_cases_rbuf_lt_8": sum(1 for o in obs if o["rbuf"] < 8),
         "traces_validated_against_impl": len(lines),
